@@ -46,13 +46,13 @@ PLANNED = {
     ),
     "C07": (
         "Lean 4 proofs that the table model enumerates exactly the well-formed moves without duplicates, for all sizes + exhaustive comparison with MOVES_BY_SIZE, encode/decode, head width",
-        "Theorems (Props/C07.lean): slides n = exactly the non-empty positive sequences with sum <= n, no duplicates; table membership <-> MoveWF; no duplicates; encode/decode mutual inverses; lengths 135/496/1575/4572 and width bound by kernel evaluation. Tie: every entry of every table, every id, every move (exhaustive), PolicyValue.move_proj width. Every table move pickled in one interpreter and encoded in another (different hash seeds); tables re-read after callers modified the lists the public helpers returned.",
+        "Theorems (Props/C07.lean): slides n = exactly the non-empty positive sequences with sum <= n, no duplicates; table membership <-> MoveWF; no duplicates; encode/decode mutual inverses; lengths 135/496/1575/4572 and width bound by kernel evaluation. Tie: every entry of every table, every id, every move (exhaustive), PolicyValue.move_proj width. Every table move pickled in one interpreter and encoded in another (different hash seeds); tables re-read after callers modified the lists the public helpers returned. The batch encoder also takes a tuple, a generator, a map object and an iterator; the consuming interpreter runs with PYTHONOPTIMIZE=1.",
         T + "exhaustive tie; Python dict/list lookup semantics modelled.",
         "5 C07",
     ),
     "C08": (
         "Lean 4 proof that one simulation preserves a declarative tree invariant (induction over simulations) + whole-tree correspondence with the real MCTS under recorded choices/evaluator answers, and the Lean invariant evaluated on dumped real trees",
-        "Theorems (Props/C08.lean): TreeInv (visit and value sums, terminal values, children one-to-one with legal moves at the cutoff holding Rules.result, renormalised priors) is preserved by every simulation for any sampler choices and evaluator answers; analyze n gives the root exactly n visits (fresh or re-used). Tie: real MCTS with uniform/random/adversarial/real-network evaluators, sizes 3..6, budgets 1..400, root noise on/off; whole tree compared; TreeInv evaluated by the driver on the implementation's tree. Roots include tactical constructed positions; searches in which the evaluator fails once and the caller resumes the tree.",
+        "Theorems (Props/C08.lean): TreeInv (visit and value sums, terminal values, children one-to-one with legal moves at the cutoff holding Rules.result, renormalised priors) is preserved by every simulation for any sampler choices and evaluator answers; analyze n gives the root exactly n visits (fresh or re-used). Tie: real MCTS with uniform/random/adversarial/real-network evaluators, sizes 3..6, budgets 1..400, root noise on/off; whole tree compared; TreeInv evaluated by the driver on the implementation's tree. Roots include tactical constructed positions; searches in which the evaluator fails once and the caller resumes the tree. The same tree searched again with the budget it has already used up; MCTS.print_tree called between search phases.",
         T + "torch.multinomial/Dirichlet are oracles (recorded); float32 prior renormalisation compared to 2e-6; wall-clock time limits not covered.",
         "5 C08",
     ),
@@ -64,7 +64,7 @@ PLANNED = {
     ),
     "C10": (
         "Lean 4 / Mathlib proofs about the bisection over an ordered field (bracket, monotonicity, invariant, contract, termination of the Python variant) + exact-rational contract evaluation on the outputs of both real solvers",
-        "Theorems (Props/C10.lean): the initial bracket encloses the root and lies above max q; g strictly decreasing; every iterate keeps the bracket; any returned vector has the form lambda*pi/(alpha-q) with one alpha above every q, positive weights and total within the stated slack; Python variant terminates within 32 rounds. Tie: tak_ext.solve_policy (built from the current tak.cpp) and solve_policy_python on inputs spanning the quantified domain, contract evaluated over Rat on the exact float bit patterns. PARTIAL: IEEE rounding, the sum==last_sum exit, float32 resolution are observed by the tie, not proved. Chains of closely related consecutive calls (a node as it grows), with the preceding calls kept as history in the replay.",
+        "Theorems (Props/C10.lean): the initial bracket encloses the root and lies above max q; g strictly decreasing; every iterate keeps the bracket; any returned vector has the form lambda*pi/(alpha-q) with one alpha above every q, positive weights and total within the stated slack; Python variant terminates within 32 rounds. Tie: tak_ext.solve_policy (built from the current tak.cpp) and solve_policy_python on inputs spanning the quantified domain, contract evaluated over Rat on the exact float bit patterns. PARTIAL: IEEE rounding, the sum==last_sum exit, float32 resolution are observed by the tie, not proved. Chains of closely related consecutive calls (a node as it grows), with the preceding calls kept as history in the replay. A very wide node (K=2000..4572) with a dominant move, swept over visit counts 3000..4000.",
         T + "no formal IEEE-754 semantics (partial); inputs sampled over the stated regimes.",
         "5 C10, 7",
     ),
@@ -94,13 +94,13 @@ PLANNED = {
     ),
     "C15": (
         "Lean 4 proofs that the eight matrices form the dihedral group and that Impl.move commutes with every symmetry + commutation squares run directly on the implementation",
-        "Theorems (Props/C15.lean): group facts by kernel evaluation; bijection on every n x n grid; Impl.move (T p) (T m) = map T (Impl.move p m) for every symmetry, position and move; legality/outcome/side/ply/reserves invariant; variants list starts with the position and has each distinct image once. Tie: matrices observed through behaviour; transform_position/transform_move/symmetries vs model; transform-then-play vs play-then-transform over every move and an ill-formed stream, sizes 3..8, standard and custom reserves. Inside cross-operation sessions (DESIGN 10.8) every operation on a descendant of a transformed position is judged (transform, move, adjudicate).",
+        "Theorems (Props/C15.lean): group facts by kernel evaluation; bijection on every n x n grid; Impl.move (T p) (T m) = map T (Impl.move p m) for every symmetry, position and move; legality/outcome/side/ply/reserves invariant; variants list starts with the position and has each distinct image once. Tie: matrices observed through behaviour; transform_position/transform_move/symmetries vs model; transform-then-play vs play-then-transform over every move and an ill-formed stream, sizes 3..8, standard and custom reserves. Inside cross-operation sessions (DESIGN 10.8) every operation on a descendant of a transformed position is judged (transform, move, adjudicate). Half of the transform_position calls receive the symmetry as a fresh temporary array.",
         T + "numpy integer matmul on 3x3 matrices modelled.",
         "5 C15",
     ),
     "C16": (
         "Lean 4 / Mathlib proofs over the reals that padding, batching and causal suffixes cannot influence a token's activations in the transformer model + numerical correspondence of the Float instance with tiny real Transformers and direct padded-vs-alone runs",
-        "Theorems (Props/C16.lean): masked keys contribute exactly zero; activations of real tokens are independent of pad content and width; rows independent; each mask-building call site yields the mask; causal prefix independence; evaluate's ranges. Tie: float64 Transformers (1–3 layers, all positional kinds, causal on/off) vs the model's Float instance to 1e-9; alone-vs-padded-batch directly on the implementation. PARTIAL: floating-point noise and torch kernel selection are observed, not proved.",
+        "Theorems (Props/C16.lean): masked keys contribute exactly zero; activations of real tokens are independent of pad content and width; rows independent; each mask-building call site yields the mask; causal prefix independence; evaluate's ranges. Tie: float64 Transformers (1–3 layers, all positional kinds, causal on/off) vs the model's Float instance to 1e-9; alone-vs-padded-batch directly on the implementation. One ModelWrapper answering 1100 times must keep giving its first answers. Half precision is not exercised (stated limitation). PARTIAL: floating-point noise and torch kernel selection are observed, not proved.",
         T + "torch's nn.MultiheadAttention/LayerNorm semantics are modelled and tied numerically; no IEEE semantics (partial).",
         "5 C16, 7",
     ),
@@ -112,19 +112,19 @@ PLANNED = {
     ),
     "C18": (
         "Lean 4 proofs about a parent/worker/bounded-queue transition system (conservation, exactness, potential, no silent stall) + real MultiprocessSelfPlayEngine under fault scripts",
-        "Theorems (Props/C18.lean): conservation of games; fault-free completion returns exactly N with nothing carried over; finite progress by a potential; if nothing but polling is enabled some worker is dead with a non-zero code, so the next poll raises; witness of the hang for exit code 0. Tie: the real engine with scripted engine factories, N x W grid, two consecutive requests, faults (factory raises, k-th evaluation raises, SIGKILL), outcome classes vs the model. PARTIAL: death inside a pipe write and OS scheduling are not modelled. Faults include a worker killed inside its engine factory (engine construction is inside the watched bound) and an idle pause between requests with the workers' timed waits compressed 100x; deaths by SIGTERM/SIGHUP/SIGSEGV/SIGABRT; requests of 5000 games; kept transcripts under a lowered descriptor limit.",
+        "Theorems (Props/C18.lean): conservation of games; fault-free completion returns exactly N with nothing carried over; finite progress by a potential; if nothing but polling is enabled some worker is dead with a non-zero code, so the next poll raises; witness of the hang for exit code 0. Tie: the real engine with scripted engine factories, N x W grid, two consecutive requests, faults (factory raises, k-th evaluation raises, SIGKILL), outcome classes vs the model. PARTIAL: death inside a pipe write and OS scheduling are not modelled. Faults include a worker killed inside its engine factory (engine construction is inside the watched bound) and an idle pause between requests with the workers' timed waits compressed 100x; deaths by SIGTERM/SIGHUP/SIGSEGV/SIGABRT; evaluator failures of other exception classes (ConnectionResetError, EOFError, BrokenPipeError, TimeoutError, OSError, KeyError); requests of 5000 games; kept transcripts under a lowered descriptor limit.",
         T + "multiprocessing.Queue as a bounded FIFO with blocking put is trusted (partial).",
         "5 C18, 7",
     ),
     "C19": (
         "Lean 4 proofs of crash-prefix consistency of the save protocol over a file-system model, for every interruption point and history + real save killed at every file-system operation and resumed",
-        "Theorems (Props/C19.lean): round trip; for every prefix of the save's operation list (file in flight left partial) resume yields the previous or the new snapshot, never fresh and never partial; the file-system invariant is preserved along every history of saves, crashes and resumes; serve/train mode round trip; replay window = most recent k; negation witnesses for the pinned protocol. Tie: syscall sequence of the real save abstracted (strace) and compared; the saving process killed at every operation, truncated in-flight files, real resume logic classified; bit-exact restore. PARTIAL: power-loss reordering (no fsync claimed), torch.save internals. C19_startup: resume and the mode switch compose; the real start-up sequence (load_or_init_model, serve_mode, train_mode) is run on full-precision snapshots under bf16/fp16/fp32 serving.",
+        "Theorems (Props/C19.lean): round trip; for every prefix of the save's operation list (file in flight left partial) resume yields the previous or the new snapshot, never fresh and never partial; the file-system invariant is preserved along every history of saves, crashes and resumes; serve/train mode round trip; replay window = most recent k; negation witnesses for the pinned protocol. Tie: syscall sequence of the real save abstracted (strace) and compared; the saving process killed at every operation, truncated in-flight files, real resume logic classified; bit-exact restore. PARTIAL: power-loss reordering (no fsync claimed), torch.save internals. C19_startup: resume and the mode switch compose; the real start-up sequence (load_or_init_model, serve_mode, train_mode) is run on full-precision snapshots under bf16/fp16/fp32 serving. One SavingHook object serving two runs; eleven saves around step 1 000 000, each followed by a fresh resume.",
         T + "POSIX rename/symlink atomicity, torch.save/load and yaml being mutually inverse are trusted (partial).",
         "5 C19, 7",
     ),
     "C20": (
         "Lean 4 proofs that epochs are permutations chunked into aligned batches and that the stream is a function of the seed + exact comparison with the real datasets under recorded permutations",
-        "Theorems (Props/C20.lean): an epoch's batches concatenate to a permutation of the rows; batch sizes; field alignment; merged buffers mask exactly the padding; determinism, fast-forward = consuming, pickle restarts. Tie: real xformer Dataset and ReplayBufferDataset on generated files/buffers with torch.randperm recorded as the oracle; determinism/fast-forward/pickle compared across real instances. C20_interleaved: several live iterators over one dataset object, interleaved with each other and with fast-forwards, each own one epoch of the sequential stream; evaluated by the driver (check-session) on what the real iterators return. Field kinds include integers beyond 2^24/2^53 next to float32/float16 fields. Iterators abandoned half way (SessOp.close; C20_abandoned_keeps_stream), sessions compared operation by operation with Sess.run; a 72 MB file judged on batch lengths (C20_batch_lengths); the replay window as TrainingRun.train_step builds it, every row given to the model judged by catRowOK.",
+        "Theorems (Props/C20.lean): an epoch's batches concatenate to a permutation of the rows; batch sizes; field alignment; merged buffers mask exactly the padding; determinism, fast-forward = consuming, pickle restarts. Tie: real xformer Dataset and ReplayBufferDataset on generated files/buffers with torch.randperm recorded as the oracle; determinism/fast-forward/pickle compared across real instances. C20_interleaved: several live iterators over one dataset object, interleaved with each other and with fast-forwards, each own one epoch of the sequential stream; evaluated by the driver (check-session) on what the real iterators return. Field kinds include integers beyond 2^24/2^53 next to float32/float16 fields. Iterators abandoned half way (SessOp.close; C20_abandoned_keeps_stream), sessions compared operation by operation with Sess.run; a 72 MB file judged on batch lengths (C20_batch_lengths); the replay window as TrainingRun.train_step builds it, every row given to the model judged by catRowOK. 130 epochs drawn from one dataset object against a fast-forwarded twin.",
         T + "torch.randperm is an oracle (each recorded result is checked to be a permutation); CUDA pinning not covered. Python generator semantics (the body starts at the first next; close()/garbage collection raise GeneratorExit at the yield and run no dataset code) are modelled by Sess and compared operation by operation.",
         "5 C20",
     ),
